@@ -456,6 +456,13 @@ Eval(e, st) ==
                     ELSE LET res == Substitute(e.re, ToStr(Norm(rp[1])), ToStr(Norm(old[1])), e.global)
                          IN IF res[2] = 0 /\ kk[1].k = "field" THEN <<Num(0), rp[2]>>     \* no match: the record is left alone
                             ELSE <<Num(res[2]), LvWrite(kk[1], rp[2], Str(res[1]), 0)>>
+    [] e.k = "matchfn" ->         \* match(s, /re/): position of the leftmost-longest match, RSTART and RLENGTH set
+         LET r == Eval(e.e, st)
+         IN IF ~Live(r[2]) THEN <<Null, r[2]>>
+            ELSE LET m == Find(e.re, ToStr(Norm(r[1])), 1)
+                     rs == IF m[1] = 0 THEN 0 ELSE m[1]
+                     rl == IF m[1] = 0 THEN 0 - 1 ELSE m[2] - m[1]
+                 IN <<Num(rs), SetVar(SetVar(r[2], "RSTART", Num(rs)), "RLENGTH", Num(rl))>>
     [] e.k = "call" -> CallUser(e.f, e.args, st)
     [] e.k = "bi" -> BuiltinCall(e.f, e.args, st)
 
@@ -488,6 +495,29 @@ BuiltinCall(f, args, st) ==
                  IN IF txt = FmtBad THEN <<Null, Halt(r[2], "bad")>>
                     ELSE IF txt = FmtErr THEN <<Null, Halt(r[2], "err")>>
                     ELSE <<Str(txt), r[2]>>
+    [] f \in {"tolower", "toupper"} ->       \* ASCII letters only change (the subjects of the families are ASCII)
+         LET r == Eval(args[1], st)
+             str == ToStr(Norm(r[1]))
+             Conv(ch) == IF f = "tolower" /\ ch >= 65 /\ ch <= 90 THEN ch + 32
+                         ELSE IF f = "toupper" /\ ch >= 97 /\ ch <= 122 THEN ch - 32 ELSE ch
+         IN IF ~Live(r[2]) THEN r ELSE <<Str([j \in 1..Len(str) |-> Conv(str[j])]), r[2]>>
+    \* the mathematical functions at the points where their value is an integer (the numeric model of AwkSem);
+    \* everywhere else the value is outside the model ("bad": no prediction, spellings are still compared)
+    [] f \in {"sqrt", "exp", "log", "sin", "cos"} ->
+         LET r == Eval(args[1], st) x == NumOf(r[1])
+         IN IF ~Live(r[2]) THEN r
+            ELSE IF x = BADN THEN <<Null, Halt(r[2], "bad")>>
+            ELSE CASE f = "sqrt" /\ x >= 0 /\ (\E q \in 0..100 : q * q = x) -> <<Num(CHOOSE q \in 0..100 : q * q = x), r[2]>>
+                   [] f = "exp" /\ x = 0 -> <<Num(1), r[2]>>
+                   [] f = "log" /\ x = 1 -> <<Num(0), r[2]>>
+                   [] f = "sin" /\ x = 0 -> <<Num(0), r[2]>>
+                   [] f = "cos" /\ x = 0 -> <<Num(1), r[2]>>
+                   [] OTHER -> <<Null, Halt(r[2], "bad")>>
+    [] f = "atan2" ->
+         LET r == EvalArgs(args, st, <<>>)
+         IN IF ~Live(r[2]) THEN <<Null, r[2]>>
+            ELSE LET y == NumOf(r[1][1]) x == NumOf(r[1][2])
+                 IN IF y = 0 /\ x # BADN /\ x > 0 THEN <<Num(0), r[2]>> ELSE <<Null, Halt(r[2], "bad")>>
     [] f = "int" ->
          LET r == Eval(args[1], st) m == NumOf(r[1])
          IN IF ~Live(r[2]) THEN r ELSE IF m = BADN THEN <<Null, Halt(r[2], "bad")>> ELSE <<Num(m), r[2]>>
@@ -502,6 +532,7 @@ BuiltinCall(f, args, st) ==
                      newarr == [key \in {IntStr(j) : j \in 1..Len(parts)} |->
                                   StrNum(parts[CHOOSE j \in 1..Len(parts) : IntStr(j) = key])]
                  IN <<Num(Len(parts)), [q[2] EXCEPT !.arr = Update(@, id, newarr)]>>
+    [] OTHER -> <<Null, Halt(st, "bad")>>      \* rand, srand, ...: outside the model (spellings are still compared)
 
 \* ---------------------------------------------------------- user functions
 FuncByName(funcs, name) == funcs[CHOOSE j \in 1..Len(funcs) : funcs[j].name = name]
